@@ -6,6 +6,22 @@ use crate::engine::{Avx2, Ssse3};
 #[cfg(target_arch = "aarch64")]
 use crate::engine::Neon;
 
+// Verification hook: runtime detection ANDed with a settable mask.
+#[cfg(all(
+    feature = "verif-hooks",
+    any(target_arch = "x86", target_arch = "x86_64")
+))]
+macro_rules! is_x86_feature_detected {
+    ("avx2") => {
+        (std::arch::is_x86_feature_detected!("avx2")
+            && crate::verif::feature_allowed(crate::verif::ISA_AVX2))
+    };
+    ("ssse3") => {
+        (std::arch::is_x86_feature_detected!("ssse3")
+            && crate::verif::feature_allowed(crate::verif::ISA_SSSE3))
+    };
+}
+
 // ======================================================================
 // DefaultEngine - PUBLIC
 
